@@ -38,6 +38,34 @@ def with_empty_frames(data: bytes, positions=(0, 2)) -> bytes:
     return jwire.write_delimited(out)
 
 
+def options_only_first_frame() -> bytes:
+    """A delimited stream whose first frame holds only the options row and is exactly 10 bytes
+    long (so the stream starts 0A 0A 08), followed by a frame with statements."""
+    import io  # noqa: PLC0415
+
+    from pyjelly.serialize.flows import ManualFrameFlow  # noqa: PLC0415
+    from pyjelly.serialize.ioutils import write_delimited  # noqa: PLC0415
+
+    from mc.terms import I, L  # noqa: PLC0415
+
+    for g in (False, True):
+        for r in (False, True):
+            for lt in (0, 1):
+                opts = DR.make_options("triple", (8, 0, 0), 250, True, lt, generalized=g, rdf_star=r)
+                opts.flow = ManualFrameFlow(logical_type=lt)
+                stream = DR.g_stream("triple", opts)
+                stream.enroll()
+                out = io.BytesIO()
+                write_delimited(stream.flow.to_stream_frame(), out)
+                if len(out.getvalue()) != 11:  # 1 length byte + 10
+                    continue
+                for i in range(3):
+                    stream.triple(T.st_to_generic((I(f"http://a/s{i}"), I("http://a/p"), L(str(i)))))
+                write_delimited(stream.flow.to_stream_frame(), out)
+                return out.getvalue()
+    raise HarnessError("no option combination gives a 10-byte options-only frame")
+
+
 def exact_frames_stream(targets, pad: int = 1) -> bytes:
     """One statement per frame; frames 2.. have exactly the given byte lengths (the literal of
     each statement is sized by search), e.g. multiples of 128 whose length prefix starts 0x80."""
@@ -96,6 +124,7 @@ def base_streams(size: str = "small") -> tuple:
         seq = RT0.scale_seq("names300", 3 if cls == "triple" else 4)[:14]
         data = DR.g_write(seq, cls, DR.make_options(cls, (16, 4, 4), 12, True))
         out.append(_entry(f"mid/{cls}/fs12", cls, data, all(T.is_rdf11(s) for s in seq)))
+    out.append(_entry("optonly10/triple", "triple", options_only_first_frame(), True))
     out.append(_entry("exact128/triple", "triple", exact_frames_stream((128, 256, 384)), True))
     e = _entry("frame20k/triple", "triple", exact_frames_stream((20000,), pad=2), True)
     e["big"] = True  # (restricted cut / schedule sets in C09 and C10)
